@@ -35,6 +35,33 @@ Proof.
 Qed.
 Print Assumptions C09_read_your_writes.
 
+(** create of a value whose conversion to a primitive itself creates an object through the same updater (PageRc::create with
+    direct contents or resources; here the harness type Nested, whose to_primitive creates the child and yields << /Child c >>):
+    [create_with] reserves the parent's number before the conversion runs, so parent and child get two distinct fresh numbers,
+    each reads back as its own value, and every other number reads as before.  [create] on a Primitive is the instance with
+    the identity conversion. *)
+Theorem C09_create_nested : forall parse_obj member s v s' rp rc,
+  create_nested s v = Ok (s', (rp, rc)) ->
+  rp = (lenN (refs s), 0) /\ rc = (lenN (refs s) + 1, 0) /\ fst rp <> fst rc /\
+  (forall f g, resolve_ref parse_obj member f s' (fst rc, g) = Ok v) /\
+  (forall f g, resolve_ref parse_obj member f s' (fst rp, g) = Ok (PDict [(k_Child, PRef (fst rc) (snd rc))])) /\
+  (not_container s (fst rp) -> not_container s (fst rc) -> forall f r0, fst r0 <> fst rp -> fst r0 <> fst rc ->
+     resolve_ref parse_obj member f s' r0 = resolve_ref parse_obj member f s r0) /\
+  backend s' = backend s /\ cache s' = [] /\ lenN (refs s') = lenN (refs s) + 2.
+Proof. exact create_nested_ryw. Qed.
+Print Assumptions C09_create_nested.
+
+Theorem C09_create_is_create_with : forall s v, create_with s (fun s1 => Ok (s1, v)) = Ok (create s v).
+Proof. exact create_is_create_with. Qed.
+Print Assumptions C09_create_is_create_with.
+
+Example C09_create_nested_example :
+  match create_nested (mkSt [XFree 0 65535; XRaw 9 0] [] [] 0 [] false) (PInt 7) with
+  | Ok (s', (p, c)) => p = (2, 0) /\ c = (3, 0) /\ clookup (changes s') 3 = Some (PInt 7, 0)
+  | _ => False
+  end.
+Proof. vm_compute. repeat split. Qed.
+
 (** The object cache is invisible: a typed get returns what resolve returns, and create / update / save
     start from an empty cache. *)
 Theorem C09_get_coherent : forall parse_obj member s r s' v,
